@@ -27,6 +27,10 @@ func registerExtras() {
 	propertyRules["C10"] = append(propertyRules["C10"], ruleDurationSrc)
 	propertyRules["C16"] = append(propertyRules["C16"], ruleBlockStartRef)
 	propertyRules["C11"] = append(propertyRules["C11"], ruleDivNonzero)
+	propertyRules["C05"] = append(propertyRules["C05"], ruleDbftState)
+	propertyRules["C03"] = append(propertyRules["C03"], ruleDbftState)
+	propertyRules["C04"] = append(propertyRules["C04"], rulePrefix)
+	propertyRules["C12"] = append(propertyRules["C12"], rulePrefix)
 	propertyRules["C02"] = append(propertyRules["C02"], ruleVerifyKey)
 	propertyRules["C07"] = append(propertyRules["C07"], ruleVerifyKey)
 	propertyRules["C08"] = append(propertyRules["C08"], ruleVerifyKey)
@@ -315,7 +319,7 @@ func ruleStaleCVRequest(c *RC) *RuleResult {
 func ruleDivNonzero(c *RC) *RuleResult {
 	r := &RuleResult{Rule: "A-DIV-NONZERO", Kind: "ARITH+GUARD", Doc: "every integer / and % in package dbft has a divisor that cannot be zero: non-zero constant, array length, validator count (documented contract), or a Config field validated by checkConfig"}
 	_, validated := c.configFacts()
-	if c.Prog.fn("checkConfig") == nil {
+	if c.configChecker() == nil {
 		r.unresolved("checkConfig")
 	}
 	// the constructor hands out an instance only after checkConfig returned nil
@@ -326,7 +330,7 @@ func ruleDivNonzero(c *RC) *RuleResult {
 			if len(e.Ret) != 2 || e.Ret[0].K == KNil {
 				continue
 			}
-			okd := e.Events["fn:checkConfig=nil"]
+			okd := c.configChecker() != nil && e.Events["fn:"+c.configChecker().Name+"=nil"]
 			if okd {
 				good++
 			} else {
@@ -395,7 +399,7 @@ func (c *RC) configFacts() (nonNil, nonZero map[string]bool) {
 		return c.cfgNonNil, c.cfgNonZero
 	}
 	c.cfgNonNil, c.cfgNonZero = map[string]bool{}, map[string]bool{}
-	cc := c.Prog.fn("checkConfig")
+	cc := c.configChecker()
 	if cc == nil || len(cc.Params) != 1 {
 		return c.cfgNonNil, c.cfgNonZero
 	}
@@ -549,6 +553,72 @@ func ruleVerifyKey(c *RC) *RuleResult {
 	}
 	if n < 4 {
 		r.unresolved(fmt.Sprintf("Verify call sites (found %d, expected >= 4)", n))
+	}
+	return r
+}
+
+// F-DBFT-STATE: state kept next to the Context (fields of the DBFT struct itself) is not touched by the epoch writer,
+// so each such field must be of a kind that cannot carry anything from one height or view into the next: the embedded
+// Context / Config, the mutex, the future-message cache (A-CACHE), or a boolean flag that is scoped to one call (every
+// function that sets it has it cleared again at every exit). Anything else is persistent state outside the reset
+// discipline and fails until it is classified.
+func ruleDbftState(c *RC) *RuleResult {
+	r := &RuleResult{Rule: "F-DBFT-STATE", Kind: "TYPESTATE", Doc: "every field of DBFT outside Context is the config, the mutex, the future-message cache, or a call-scoped boolean flag (false again at every exit of every function that sets it)"}
+	st := c.Prog.Structs["DBFT"]
+	if st == nil {
+		r.unresolved("struct DBFT")
+		return r
+	}
+	for i := 0; i < st.NumFields(); i++ {
+		f := st.Field(i)
+		r.Sites++
+		tn := namedName(f.Type())
+		switch {
+		case f.Embedded() && (tn == "Context" || tn == "Config" || tn == "Mutex"):
+			r.ok("DBFT." + f.Name() + ": embedded " + tn)
+			continue
+		case tn == "cache":
+			r.ok("DBFT." + f.Name() + ": future-message cache (obligations in A-CACHE)")
+			continue
+		}
+		loc := "dbft." + f.Name()
+		if b, ok := f.Type().Underlying().(*types.Basic); ok && b.Kind() == types.Bool {
+			// call-scoped flag
+			bad := ""
+			writers := 0
+			for _, fn := range c.Prog.dbftFuncs() {
+				sets := false
+				for _, s := range c.A.FnSites[fn] {
+					if s.Kind == "write" && s.Loc == loc {
+						sets = true
+					}
+				}
+				if !sets {
+					continue
+				}
+				writers++
+				for _, e := range c.exitsFrom(fn, newState(), true) {
+					v := e.FieldVal[loc]
+					if e.Killed[loc] != 0 && (v == nil || v.S != "false") {
+						got := "unknown"
+						if v != nil {
+							got = v.S
+						}
+						bad = fn.Name + " leaves " + loc + " = " + got + " on path {" + strings.Join(e.Trail, "; ") + "}"
+					}
+				}
+			}
+			switch {
+			case bad != "":
+				r.fail("DBFT."+f.Name()+"/flag-leaks", "", "the flag is not cleared on every exit of the function that sets it, and neither Reset nor Start clears it: "+bad+" (it then influences later heights)")
+			case writers == 0:
+				r.ok("DBFT." + f.Name() + ": never written")
+			default:
+				r.ok(fmt.Sprintf("DBFT.%s: call-scoped flag, false at every exit of its %d writer(s)", f.Name(), writers))
+			}
+			continue
+		}
+		r.fail("DBFT."+f.Name()+"/unclassified", "", "field "+f.Name()+" ("+f.Type().String()+") of DBFT lives outside Context: the epoch writer does not reinitialise it, so what it holds survives view changes and Reset; classify it (and state what resets it) before relying on it")
 	}
 	return r
 }
